@@ -1,0 +1,113 @@
+#pragma once
+
+// Verification hooks (off unless the library and its clients are compiled with -DYACLIB_VERIF).
+// With the guard off every macro below expands to nothing and nothing else is declared.
+//
+// Choice hooks replace a random draw of the fault layer by a decision of an external controller,
+// observation hooks report what an operation did. All pointers are null by default, in which case the
+// fault layer behaves exactly as without the guard.
+
+#ifdef YACLIB_VERIF
+
+#  include <cstdint>
+#  include <cstring>
+#  include <type_traits>
+
+namespace yaclib::verif {
+
+enum Kind : std::uint8_t {
+  kLoad = 0,
+  kStore,
+  kXchg,
+  kCas,
+  kCasWeak,
+  kFetchAdd,
+  kFetchSub,
+  kFetchAnd,
+  kFetchOr,
+  kFetchXor,
+  kLock,
+  kTryLock,
+  kUnlock,
+  kLockShared,
+  kTryLockShared,
+  kUnlockShared,
+  kTryLockFor,
+  kTryLockSharedFor,
+  kCvWait,
+  kCvWaitFor,
+  kNotifyOne,
+  kNotifyAll,
+  kFence,
+};
+
+struct Op {
+  const void* obj;
+  std::uint64_t (*peek)(const void*);  // current value of an atomic as a word, null for locks and condvars
+  std::uint64_t arg;                   // desired / operand
+  std::uint64_t arg2;                  // expected (CAS)
+  std::uint32_t size;
+  std::int8_t order;    // std::memory_order of the operation (success order for CAS), -1 if none
+  std::int8_t failure;  // failure order for CAS, -1 otherwise
+  Kind kind;
+};
+
+struct Hooks {
+  // observation: a wrapper method is about to run its YACLIB_INJECT_FAULT(statement)
+  void (*begin_op)(const Op&) = nullptr;
+  // choice + observation: called from InjectFault(); true = handled, the random injector is skipped
+  bool (*inject)() = nullptr;
+  // choice: Scheduler::GetNext, ids of the runnable fibers in queue order; < 0 = no opinion
+  int (*pick_next)(const std::uint64_t* ids, int n) = nullptr;
+  // choice: FiberQueue::NotifyOne, ids of the waiting fibers in queue order; < 0 = no opinion
+  int (*pick_waiter)(const std::uint64_t* ids, int n) = nullptr;
+  // choice: Scheduler::RunLoop, sleepers exist: advance virtual time to the first of them now?
+  bool (*advance_time)(int runnable, std::uint64_t now, std::uint64_t next_deadline) = nullptr;
+  // choice: compare_exchange_weak spurious failure; < 0 = no opinion
+  int (*weak_fail)() = nullptr;
+  // choice: any other random draw; false = no opinion
+  bool (*rand)(std::uint64_t max, std::uint64_t* out) = nullptr;
+  // observation: every random draw with its result
+  void (*on_rand)(std::uint64_t max, std::uint64_t value) = nullptr;
+  // observation: the scheduler resumes this fiber, virtual time after the tick
+  void (*on_resume)(std::uint64_t id, std::uint64_t time) = nullptr;
+  // observation: a fiber was put on the run queue / a sleep list / a wait queue
+  void (*on_schedule)(std::uint64_t id, int where, std::uint64_t key) = nullptr;
+  // observation: the injector decided to yield here
+  void (*on_inject)(std::uint64_t injected_count) = nullptr;
+};
+
+Hooks& GetHooks() noexcept;
+
+template <typename T>
+inline std::uint64_t ToWord(const T& v) noexcept {
+  std::uint64_t w = 0;
+  if constexpr (std::is_trivially_copyable_v<T>) {
+    std::memcpy(&w, &v, sizeof(T) < sizeof(w) ? sizeof(T) : sizeof(w));
+  }
+  return w;
+}
+
+inline void BeginOp(const void* obj, std::uint64_t (*peek)(const void*), std::uint32_t size, Kind kind, int order,
+                    int failure, std::uint64_t arg, std::uint64_t arg2) noexcept {
+  if (auto* f = GetHooks().begin_op) {
+    f(Op{obj, peek, arg, arg2, size, static_cast<std::int8_t>(order), static_cast<std::int8_t>(failure), kind});
+  }
+}
+
+}  // namespace yaclib::verif
+
+// inside a member of detail::AtomicBase<Impl, T> and classes derived from it
+#  define YACLIB_VERIF_ATOMIC(kind, order, failure, arg, arg2)                                                        \
+    ::yaclib::verif::BeginOp(this, &::yaclib::detail::AtomicBase<Impl, T>::VerifPeek, sizeof(T),                     \
+                             ::yaclib::verif::kind, static_cast<int>(order), static_cast<int>(failure),              \
+                             ::yaclib::verif::ToWord(arg), ::yaclib::verif::ToWord(arg2))
+// inside a member of the lock and condition variable wrappers
+#  define YACLIB_VERIF_SYNC(kind) ::yaclib::verif::BeginOp(this, nullptr, 0, ::yaclib::verif::kind, -1, -1, 0, 0)
+
+#else
+
+#  define YACLIB_VERIF_ATOMIC(kind, order, failure, arg, arg2)
+#  define YACLIB_VERIF_SYNC(kind)
+
+#endif
